@@ -143,3 +143,154 @@ def run_real(comp, chart, variant, timeout=30.0, trace_file=None, use_registry=N
     else:
         res['worker_bodies'] = []
     return res
+
+
+# ---------------------------------------------------------------------------------------------------------------------
+# real threads: rendezvous of sibling bodies with an exact (state-based, not time-based) deadlock verdict
+class Rendezvous:
+    """every body of `group` registers itself and then waits - WITHOUT a timeout - until all of them are inside their
+    bodies at the same time. Coroutine members wait on an asyncio.Event, thread-pool members on a threading.Event."""
+
+    def __init__(self, group, loop):
+        self.group = set(group)
+        self.loop = loop
+        self.entered = []
+        self.lock = threading.Lock()
+        self.tev = threading.Event()
+        self.aev = asyncio.Event()
+        self.released_by_watchdog = False
+
+    def _register(self, nid):
+        with self.lock:
+            if nid not in self.entered:
+                self.entered.append(nid)
+            return set(self.entered) >= self.group
+
+    def release(self):
+        self.tev.set()
+        self.loop.call_soon_threadsafe(self.aev.set)
+
+    def enter_sync(self, nid):
+        if self._register(nid):
+            self.release()
+        self.tev.wait()
+
+    async def enter_async(self, nid):
+        if self._register(nid):
+            self.release()
+        await self.aev.wait()
+
+
+def _thread_states(skip_tid):
+    """{tid: (state, voluntary switches, involuntary switches)} of every thread of this process except `skip_tid`"""
+    out = {}
+    for tid in os.listdir('/proc/self/task'):
+        if int(tid) == skip_tid:
+            continue
+        try:
+            with open(f'/proc/self/task/{tid}/stat') as f:
+                st = f.read().rsplit(')', 1)[1].split()[0]
+            vol = invol = None
+            with open(f'/proc/self/task/{tid}/status') as f:
+                for line in f:
+                    if line.startswith('voluntary_ctxt_switches'):
+                        vol = int(line.split()[1])
+                    elif line.startswith('nonvoluntary_ctxt_switches'):
+                        invol = int(line.split()[1])
+            out[tid] = (st, vol, invol)
+        except OSError:
+            out[tid] = ('gone', None, None)
+    return out
+
+
+def run_rendezvous(comp, chart, variant, group, budget=60.0):
+    """Run on the real loop with a real ThreadPoolExecutor; the bodies of `group` rendezvous.
+    status: done        - the run completed (all members were in flight together)
+            serialised  - PROCESS QUIESCENT with the run pending: every thread of the process (loop thread, pool
+                          workers) is asleep and none of them was scheduled at all during 8 consecutive samples, the
+                          loop has no timer and no ready callback. Nothing can wake anything up any more: the members
+                          that did not enter can only be waiting for those that did. This is a state-based verdict;
+                          the sampling period only bounds how long it takes to reach it.
+            inconclusive - wall budget exhausted without either (never reported as a violation)"""
+    from ml_pipeline_engine.parallelism import process_pool_registry
+    from ml_pipeline_engine.parallelism import threads_pool_registry
+
+    sys.modules[comp.module.__name__] = comp.module
+    rec = R.RunRec('r0', comp.program, variant, loop=None, rec_start_of=comp.rec_start_of)
+    R.CURRENT = rec
+    saved = (threads_pool_registry._pool_executor, process_pool_registry._pool_executor,
+             process_pool_registry._process_manager)
+    tpool = concurrent.futures.ThreadPoolExecutor(max(4, len(group) + 2))
+    threads_pool_registry._pool_executor = tpool
+    loop = asyncio.new_event_loop()
+    rv = Rendezvous(group, loop)
+    rec.rendezvous = rv
+    res = {'rec': rec, 'status': None}
+    stop = threading.Event()
+    try:
+        async def wrapper():
+            R.RUN.set(rec)
+            return await chart.run(pipeline_id='pid-rv', input_kwargs={'x': variant.get('x', 0), 'tag': 'r0'})
+
+        main = loop.create_task(wrapper())
+
+        def watchdog():
+            me = threading.get_native_id()
+            deadline = time.time() + budget
+            prev = None
+            quiet = 0
+            while not stop.is_set():
+                time.sleep(0.03)
+                if main.done():
+                    return
+                cur = _thread_states(me)
+                idle_loop = len(loop._ready) == 0 and len(loop._scheduled) == 0
+                asleep = all(v[0] == 'S' for v in cur.values())
+                quiet = quiet + 1 if (idle_loop and asleep and prev is not None and cur == prev) else 0
+                prev = cur
+                if quiet >= 8:
+                    res['status'] = 'serialised'
+                    res['entered'] = list(rv.entered)
+                    rv.released_by_watchdog = True
+                    rv.release()
+                    return
+                if time.time() > deadline:
+                    res['status'] = 'inconclusive'
+                    rv.released_by_watchdog = True
+                    rv.release()
+                    return
+
+        th = threading.Thread(target=watchdog, daemon=True)
+        th.start()
+        try:
+            loop.run_until_complete(main)
+        except BaseException as e:  # noqa: BLE001
+            res['raised'] = e
+        stop.set()
+        th.join(5)
+        if res['status'] is None:
+            res['status'] = 'done'
+        res['entered'] = res.get('entered') or list(rv.entered)
+        if main.done() and not main.cancelled() and main.exception() is None:
+            r = main.result()
+            res['outcome'] = ('error', r.error, r.value) if r.error is not None else ('value', r.value)
+        else:
+            res['outcome'] = ('other',)
+    finally:
+        stop.set()
+        rv.release()
+        try:
+            pending = [t for t in asyncio.all_tasks(loop) if not t.done()]
+            for t in pending:
+                t.cancel()
+            if pending:
+                loop.run_until_complete(asyncio.gather(*pending, return_exceptions=True))
+        except BaseException:  # noqa: BLE001
+            pass
+        loop.close()
+        tpool.shutdown(wait=True)
+        (threads_pool_registry._pool_executor, process_pool_registry._pool_executor,
+         process_pool_registry._process_manager) = saved
+        R.CURRENT = None
+        sys.modules.pop(comp.module.__name__, None)
+    return res
